@@ -20,8 +20,11 @@ EXPLANATION = (
     "dimension mismatch before doing work, builds the overlap as a Hermitian product conj(base) . target^T (rows = base, "
     "columns = target; folded on symbolic 2x2 bases), and its greedy loop runs ndim times, takes the arg-max of |m|, eliminates "
     "the chosen row AND column and stores sorted[row] = items[column]; the matdyn reader, folded on reference lines of the "
-    "documented layout, returns (q-coordinates, ((index, THz, cm^-1), complex components)) with counts nq, np, np//3 lines x 3.")
-NOT_DECIDED = ("that the greedy assignment recovers the permutation for perturbed bases (a numerical statement about overlaps); "
+    "documented layout, returns (q-coordinates, ((index, THz, cm^-1), complex components)) with counts nq, np, np//3 lines x 3. "
+    "evec_disp2eig is also folded cell by cell on concrete shapes (R20.2b: formula per cell, caller's array untouched, six classes of shape "
+    "mismatch refused, including sizes divisible by 3N); evec_sort is folded on exact reference bases (6 permutations x 2 orthonormal bases, a "
+    "24-vector basis with one crossing, degenerate overlaps); branches on overlap data before the arg-max are explored both ways.")
+NOT_DECIDED = ("that the greedy assignment recovers the permutation for every perturbed basis (decided on the folded reference bases only); "
                "robustness of the fixed-column slices to other matdyn versions.")
 ASSUMPTIONS = ["matdyn eigenvector layout as in tests/data/pwscf.eig (reference lines written out in the rule)",
                "T-LIB: numpy.unravel_index(argmax(|m|), m.shape) gives (row, column) of the largest entry"]
